@@ -155,7 +155,10 @@ impl Binomial {
                 let s = p / q;
                 Method::Binv(
                     Binv {
-                        r: q.powf(n as f64),
+                        // `q^n` via `ln_1p`: `q = 1 - p` is only accurate to ~1e-16
+                        // relative, which `powf(n)` amplifies by `n` (for n ~ 2^55 the
+                        // result is off by a factor e^(+-1) or more)
+                        r: (n as f64 * (-p).ln_1p()).exp(),
                         s,
                         a: (n as f64 + 1.0) * s,
                         n,
